@@ -69,9 +69,14 @@ def run(ctx):
             freq = [rng.choice([0, 1, 1, 2, 3]) for _ in range(k)]
         pol = rng.choice([0, 2, 2, 1]) if not rwlib.has_dups(lines) else rng.choice([0, 1, 2])
         n_jobs = rng.randint(1, 4)
+        # a quarter of the conversions have a history: the same path held a shorter file (a prefix) that was converted
+        # in the same process just before
+        earlier = None
+        if len(lines) >= 2 and rng.random() < 0.25:
+            earlier = sorted(rng.sample(range(0, len(lines)), rng.randint(1, 2)))
         conv.append({"lines": lines, "freq": freq, "per": per, "n_jobs": n_jobs, "pol": pol,
                      "delays": [rng.choice([0, 0, 0.01, 0.05, 0.15]) for _ in range(rng.randint(1, 5))],
-                     "fast_poll": rng.random() < 0.75})
+                     "fast_poll": rng.random() < 0.75, "earlier_prefixes": earlier})
     # the submit/close race: preempt the submitting thread right after apply_async's state check
     for (n, per) in [(3, 10), (4, 2), (9, 3), (5, 2)]:
         conv.append({"lines": mk_events(rng, n), "freq": None, "per": per, "n_jobs": rng.randint(1, 3), "pol": 2,
@@ -82,7 +87,7 @@ def run(ctx):
         no, nc = rwlib.label_sets(c["lines"])
         jobs.append({"mode": "convert", "events": c["lines"], "freq": c["freq"], "per": c["per"], "n_jobs": c["n_jobs"],
                      "pol": c["pol"], "delays": c["delays"], "fast_poll": c["fast_poll"],
-                     "race_delay": c.get("race_delay"),
+                     "race_delay": c.get("race_delay"), "earlier_prefixes": c.get("earlier_prefixes"),
                      "cue_map": dict(nc.ids), "outcome_map": dict(no.ids)})
         menc.append((401, wr_events(rwlib.events_to_ids(es, no, nc)) + [c["per"], c["pol"]]))
     results = sc.run_workers("chunk_worker", jobs, timeout=DEADLINE, jobs=12, max_timeouts=2)
@@ -94,7 +99,9 @@ def run(ctx):
             continue
         n = len(expand(c["lines"], c["freq"]))
         d = {"n_events": n, "per": c["per"], "n_jobs": c["n_jobs"], "pol": c["pol"], "delays": c["delays"],
-             "freq": c["freq"], "lines": c["lines"], "fast_poll": c["fast_poll"], "race_delay": c.get("race_delay")}
+             "freq": c["freq"], "lines": c["lines"], "fast_poll": c["fast_poll"], "race_delay": c.get("race_delay"),
+             "same_path_converted_before_with_prefixes": c.get("earlier_prefixes")}
+        rep.hist("path_has_a_history", bool(c.get("earlier_prefixes")))
         rep.hist("amplified_submit_close_race", bool(c.get("race_delay")))
         rep.case(d, nontrivial=n > c["per"])
         rep.hist("exact_multiple", n % c["per"] == 0)
@@ -167,7 +174,8 @@ def run(ctx):
             ljobs.append({"mode": "ndl", "events": st["es"], "per": per, "n_jobs": rng.randint(1, 3), "pol": 0,
                           "method": method, "alpha": rwlib.nd(p["alpha"]), "beta1": rwlib.nd(p["beta1"]),
                           "beta2": rwlib.nd(p["beta2"]), "lam": rwlib.nd(p["lam"]),
-                          "delays": [rng.choice([0, 0.02, 0.1]) for _ in range(3)], "fast_poll": rng.random() < 0.7})
+                          "delays": [rng.choice([0, 0.02, 0.1]) for _ in range(3)], "fast_poll": rng.random() < 0.7,
+                          "earlier_prefixes": [rng.randint(1, n - 1)] if n >= 3 and rng.random() < 0.3 else None})
             lmeta.append((si, per, method))
     results = sc.run_workers("chunk_worker", ljobs, timeout=DEADLINE, jobs=12, max_timeouts=2)
     rep.lap("learner_runs")
@@ -177,7 +185,8 @@ def run(ctx):
             continue
         st = sets[si]
         d = {"events": st["es"], "events_per_temporary_file": per, "method": method, "n_jobs": j["n_jobs"],
-             "p": {k: str(v) for k, v in st["p"].items()}}
+             "p": {k: str(v) for k, v in st["p"].items()},
+             "same_path_learned_before_with_prefixes": j.get("earlier_prefixes")}
         rep.case(d, nontrivial=len(st["es"]) > per)
         if status == "timeout":
             status, res = sc.run_worker("chunk_worker", j, timeout=3 * DEADLINE)
